@@ -48,6 +48,12 @@ func (s *vsSIStore) yield(site string) {
 	}
 }
 
+func (s *vsSIStore) probe(name string) {
+	if s.x != nil {
+		s.x.res.Probes[name]++
+	}
+}
+
 // Reserve hands out n consecutive timestamps and returns the first (PD TSO).
 func (s *vsSIStore) Reserve(n uint64) (uint64, error) {
 	s.yield("rpc.Tso")
@@ -72,7 +78,7 @@ func (s *vsSIStore) BatchGet(ctx context.Context, keys [][]byte, version uint64)
 		}
 	}
 	if len(errs) > 0 {
-		s.x.res.Probes["rpc_read_met_lock"]++
+		s.probe("rpc_read_met_lock")
 		return nil, &client.KeyConflictError{Errors: errs}
 	}
 	out := make(map[string]*pb.GetResponse, len(keys))
@@ -113,7 +119,7 @@ func (s *vsSIStore) Mutate(ctx context.Context, primary []byte, mutations []*pb.
 		}
 	}
 	if len(errs) > 0 {
-		s.x.res.Probes["rpc_prewrite_conflict"]++
+		s.probe("rpc_prewrite_conflict")
 		return &client.KeyConflictError{Errors: errs}
 	}
 	keys := make([]string, 0, len(mutations))
